@@ -3,3 +3,5 @@ import LouModel.PosMap
 import LouModel.Driver
 import LouModel.Proto
 import LouModel.Resolve
+import LouModel.Log
+import LouModel.Gen.LogSites
